@@ -4,3 +4,4 @@ import Gen.Helpers
 import Gen.Sigs
 import Gen.Align
 import Gen.Effects
+import Gen.Colors
